@@ -232,6 +232,44 @@ def grid(full):
 SIDE_NAMES = {'ffiserver': 'server created through the C ABI', 'fficlient': 'client created through the C ABI'}
 
 
+# ---------------------------------------------------------------------------------------------
+# a TLS client against a peer that accepts the TCP connection and never answers (Properties/C09_ClientFront.v:
+# ClientFront_shutdown_during_handshake, ClientFront_request_during_handshake_fails_fast, ClientFront_parked_is_connecting)
+STALL_REQ = ['Base.Show', 'Spec.Lifecycle', 'Gen.SessionErrors', 'Model.ClientTask', 'Spec.TlsSpec', 'Gen.TlsVersions', 'Gen.TlsModes', 'Model.ClientFront']
+STALL_T = 'list cevent'
+STALL_FN = ('fun evs : list cevent => let o := snd (crun {| cfg_cap := 8%nat; cfg_res := 1 |} (CTls V1_2 AuthorityBased true) (cinit 1 None 30000000000 30000000000) evs) in '
+            'show_list (fun l => match l with LDisabled => "Disabled" | LConnecting => "Connecting" | LConnected => "Connected" | LWaitFailed _ => "WaitAfterFailedConnect" '
+            '| LWaitDisc _ => "WaitAfterDisconnect" | LShutdown => "Shutdown" end) "," (LDisabled :: listens_of o) ++ ";req=" ++ '
+            '(match flat_map (fun x => match x with OComplete _ r => [r] | _ => [] end) o with [] => "none" | RErr ReNoConnection :: _ => "NoConnection" | _ => "other" end)')
+STALL_EVENTS = {
+    'S': ['CE (EvSubmit CShutdown SFuture)', 'CE EvRecv'],
+    'D': ['CE (EvSubmit CDisable SFuture)', 'CE EvRecv'],
+    'Q': ['CE (EvSubmit (CReq {| rq_id := 1%nat; rq_kind := KRead; rq_timeout := 2000000000 |}) SFuture)', 'CE EvRecv'],
+}
+
+
+def run_stalled_handshake(ctx):
+    ops = ctx.replay['stall_ops'] if (ctx.replay and 'stall_ops' in ctx.replay) else ['S', 'D', 'Q', 'S', 'Q', 'D']
+    certs = os.path.join(REPO_CERTS, 'ca_chain')
+    impl = ctx.harness('clientstall', [f'{certs} {op}' for op in ops], timeout=600)
+    want = ctx.coq_eval(STALL_REQ, STALL_FN, ['[' + '; '.join(['CE (EvSubmit CEnable SFuture)', 'CE EvRecv', 'CTcp true SrvStalls'] + STALL_EVENTS[op] + ['CE (EvTick 600000000)', 'CE EvTimer', 'CE EvRecv']) + ']' for op in ops],
+                        case_type=STALL_T, preamble='Local Open Scope string_scope.')
+    bad = 0
+    names = {'S': 'shutdown', 'D': 'disable', 'Q': 'request'}
+    for op, i, w in zip(ops, impl, want):
+        if i != w:
+            bad += 1
+            if bad <= 2:
+                what = {'S': 'Channel::shutdown() is not honoured while the handshake is pending', 'D': 'Channel::disable() is not honoured while the handshake is pending',
+                        'Q': 'a request submitted while the handshake is pending is not failed with NoConnection'}[op]
+                ctx.violation(f'tls.client.stalled-handshake.{names[op]}-not-honoured',
+                              f'TLS client against a peer that accepts the TCP connection and never answers, {names[op]} during the stalled handshake: {what}: '
+                              f'listener states / request result until the end of the stall: implementation {i} but composed model (= C13: shutdown / disable honoured, requests fail fast while not connected) {w}',
+                              {'stall_ops': [op], 'impl': i, 'spec': w})
+    ctx.oblige('correspondence:tls-client-stalled-handshake', bad == 0, f'{bad} of {len(ops)} scenarios differ')
+    ctx.coverage['stalled_handshake_scenarios'] = len(ops)
+
+
 def judge(c, impl, want):
     """compare one harness result with an expected 'OK:ver:role' / 'REFUSED'; returns None or a description"""
     parts = impl.split(':')
@@ -278,6 +316,8 @@ def run(ctx):
     ctx.oblige('independent-peer-available', have_openssl, OPENSSL)
     if missing or not have_openssl:
         return
+    if ctx.replay and 'stall_ops' in ctx.replay and 'cases' not in ctx.replay:
+        return run_stalled_handshake(ctx)
     if ctx.replay and 'cases' in ctx.replay:
         cells = ctx.replay['cases']
     else:
@@ -335,6 +375,10 @@ def run(ctx):
                       f'{"with" if c["authz"] else "without"} authorization) against a {c["peer"]} peer offering {c["offer"]} presenting a {c["label"]} certificate: {d} (harness: {i}, Spec: {spec})',
                       {'cases': [c], 'impl': i, 'spec': spec, 'harness_line': harness_line(c), 'ground_truth': truth(c)})
     ctx.oblige('correspondence:tls-handshake-grid', n_spec == 0 and n_model == 0, f'{n_model} model / {n_spec} spec mismatches in {len(cells)} cells')
+    if not ctx.replay and models_ok:
+        front_ok = ctx.build_models(['Model.ClientFront'])
+        if front_ok:
+            run_stalled_handshake(ctx)
     classes = {}
     for c, b in zip(cells, both):
         for k in (f'side:{c["side"]}', f'min:{c["min"]}', f'mode:{c["mode"]}', f'peer:{c["peer"]}', f'offer:{c["offer"]}', f'cert:{c["label"].rstrip("2")}',
